@@ -661,6 +661,18 @@ def c29(run):
     drive(["spans", run.seed, sizes(run, 250, 5000), t4])
     run.validate("Trace_Seq.tla", ["C29"], t4, "spans-seq")
     count_nontrivial(run, t4, has_iso)
+    # the AutoCommit front end: isolate(H) must show the state at H, integrate() the un-isolated document plus the
+    # changes made inside, which depend only on H and on each other (ptrans probes, Trace_View)
+    from . import write_trace
+    t5 = os.path.join(run.work, "conflictpatch.ndjson")
+    drive(["conflictpatch", run.seed, sizes(run, 80, 2000), t5])
+    evs = [e for e in read_trace(t5) if e.get('ev') in ('ptrans', 'reset')]
+    t6 = os.path.join(run.work, "autocommit-isolate.ndjson")
+    write_trace(t6, evs)
+    run.validate("Trace_View.tla", ["C29"], t6, "autocommit-isolate")
+    for e in evs:
+        if e.get('kind') in ('isolate', 'integrate') and 'want' in e:
+            run.nontrivial(("acisolate", digest_of(e.get('v2'))))
 
 
 def has_err(sc):
